@@ -46,6 +46,17 @@ def main(c):
             continue
         seen.add(k)
         c.report(k, w, {"line": l, "replay": G.replay_of(d)}, True)
+    gen = G.gen_file(c, v, "C40")
+    files = G.model_sources(c, "C40") + [gen, "Properties_C40.v"]
+    files.append("Properties_C40_integrate_refuted.v" if v["v_late_throw"] else "Properties_C40_integrate.v")
+    files.append("Properties_C40_wrappers_refuted.v" if (v["v_late_throw"] or v["v_wrap_nonzero"]) else "Properties_C40_wrappers.v")
+    files.append("Properties_C40_hypotheses.v")
+    res = c.coq(files, timeout=900)
+    if not res.ok:
+        if c.violations and any(x[3] for x in c.violations):
+            c.notes.append("proof obligations failed: %s; concrete failing inputs reported above" % [f[2] for f in res.failed])
+        else:
+            c.coq_failures(res)
     g = wait_generated()
     glines = []
     if g is not None:
@@ -65,17 +76,6 @@ def main(c):
         key = "model-mismatch:%s:tr=%d:K0=%d:K1=%d:K2=%d:%s" % (d["fn"], d["tr"], d["K0"], d["K1"], d["K2"], d["pol"])
         c.report(key, "the templates do not behave as the model (variant %s) on this script: %s" % (G.variant_bits(v), b[:1500]),
                  {"line": b, "replay": G.replay_of(d)}, True)
-    gen = G.gen_file(c, v, "C40")
-    files = G.model_sources(c, "C40") + [gen, "Properties_C40.v"]
-    files.append("Properties_C40_integrate_refuted.v" if v["v_late_throw"] else "Properties_C40_integrate.v")
-    files.append("Properties_C40_wrappers_refuted.v" if (v["v_late_throw"] or v["v_wrap_nonzero"]) else "Properties_C40_wrappers.v")
-    files.append("Properties_C40_hypotheses.v")
-    res = c.coq(files, timeout=900)
-    if not res.ok:
-        if c.violations and any(x[3] for x in c.violations):
-            c.notes.append("proof obligations failed: %s; concrete failing inputs reported above" % [f[2] for f in res.failed])
-        else:
-            c.coq_failures(res)
     c.trusted("driver props/C39/driver.cxx (mock behaviours, choice oracle, byte comparison of the s1 buffers before/after)",
               "OCaml driver props/C39/driver.ml", "model, specification and proofs shared with C39 (props/C39/coq, re-prefixed copies)",
               "the mock behaviour stands for every behaviour class: the templates only interact with the behaviour through the hooks scripted here")
